@@ -192,6 +192,17 @@ def expect_case(case):
         k += 1
         if abs(got - exp) > ATOL:
             return {"ok": False, "msg": "expectation value != <psi|M|psi> for psi=%s" % nm, "expected": str(exp), "observed": str(got), "sig": "expect:value", "ops": k}
+        # the exported low-level `expectation`: state as a 1-D array, as a column vector, and as the sparse density matrix |psi><psi| (two sparse formats);
+        # with width = the operator's own width the register is exactly n only for n == own width, so it is fed the sparse matrix of width n
+        import scipy.sparse as sp
+        from orquestra.quantum.operators import expectation, get_sparse_operator
+        S = get_sparse_operator(op, n_qubits=n)
+        rho = np.outer(v, v.conj())
+        for what, st in (("1-D array", v.copy()), ("column vector", v.copy().reshape(-1, 1)), ("csc density matrix", sp.csc_matrix(rho)), ("csr density matrix", sp.csr_matrix(rho))):
+            got = complex(expectation(S, st))
+            k += 1
+            if abs(got - exp) > ATOL:
+                return {"ok": False, "msg": "expectation(sparse operator, state as %s) != <psi|M|psi> for psi=%s" % (what, nm), "expected": str(exp), "observed": str(got), "sig": "expect:lowlevel", "ops": k}
         got = complex(get_expectation_value(op, wf, reverse_operator=True))
         exp = complex(np.vdot(v, Mr @ v))
         k += 1
